@@ -23,11 +23,17 @@ def run(tier, wd):
     # (an option with an empty value, `--src=`, is malformed: not an occurrence)
     a2 = ["x", "--", "--verbose", "-q", "-qs", "-sv", "--src=v", "--source", "--src=", "-s", "--verbose=true", "-s="]
     plans.append(("prog2", g.family(g.PROG2, 6 if tier == "quick" else 80, seed + 2), a2[:9] if tier == "quick" else a2, [[], ["-s"]], 3))
+    # option names with digits, dashes, underscores and capitals, written explicitly in the spec
+    P3 = {"opts": [{"names": "3way", "flag": True}, {"names": "2fa x-9", "flag": False}, {"names": "K dry_run", "flag": True}], "args": ["X"]}
+    W3, F2, KK, X3 = g.Opt("--3way"), g.Opt("--2fa"), g.Opt("-K"), g.Arg("X")
+    specs3 = [{"ast": e_, "str": g.render(P3, e_)} for e_ in (g.Seq(g.Optional(W3), X3), g.Seq(F2, X3), g.Seq(g.Rep(g.Alt(W3, F2)), X3), g.Seq(g.Optional(KK), g.Optional(W3), g.Rep(X3)),
+                                                             g.Seq(g.Optional(g.Grp(["--3way", "--2fa", "-K"], all_=True)), X3))]
+    plans.append(("names", specs3, ["x", "--3way", "--2fa=v", "--x-9", "w", "-K", "--dry_run", "--dry-run", "-k", "--2fa"], [[]], 3))
     core.replay_witnesses(rep, binpath, wd)
     cnt = collections.Counter()
     nontrivial = set()
     for label, specs, alphabet, envsets, maxlen in plans:
-        progs = [g.PROG2] if label == "prog2" else [g.STD_PROG]
+        progs = [g.PROG2] if label == "prog2" else ([P3] if label == "names" else [g.STD_PROG])
         triples = rc.enumerate_and_run(rep, wd, binpath, specs, alphabet, envsets, maxlen, label, progs=progs)
         for c, r, cls in triples:
             key = cls if not cls.startswith("violation") else cls.split(" ")[0]
